@@ -4,4 +4,4 @@ Extraction Language OCaml.
 (* coqc runs from coq/ (coq_makefile), so the path is relative to it *)
 Extraction "extracted/prof.ml" io_witness le unle cstr log_event ev_len ser_event ser_buffer b_next b_nb b_pay
   enc_events enc_table ser_key ser_thread encode lookup parse_events dec_chain dec_table parse_key parse_thread
-  decode key_view thread_view proj start_key end_key base_key key_is_end key_is_start kept_infos omits thread_of log_event_prefix dump_terminates_prefix.
+  decode key_view thread_view proj start_key end_key base_key key_is_end key_is_start kept_infos omits thread_of log_event_prefix dump_terminates_prefix merge_files presented decode_keys decode_rest.
